@@ -1353,11 +1353,20 @@ func addComponentEntries() {
 				return outcome{hasErr: true, err: err, zero: w == nil}
 			}
 			w := c.t(0).build()
+			if !c.t(0).Grad && c.k(1)%2 == 0 {
+				w = mkTensor(c.t(0).Shape, true) // a tracked leaf nothing was back-propagated to yet
+			}
 			old := w
 			err := opt.Update(&w)
 			o := outcome{hasErr: true, err: err, tensor: w, isTensor: err == nil, zero: true}
 			if err != nil && w != old {
 				o.note = "BAD Update replaced the tensor although it returned an error"
+			}
+			if err != nil && !c.t(0).Grad && c.k(1)%2 == 0 {
+				// the rejected tensor is still the tracked leaf it was
+				if e := tensor.BackPropagate(old.Scale(2)); e != nil || old.Gradient() == nil {
+					o.note = fmt.Sprintf("BAD after a rejected Update the tracked tensor no longer receives a gradient (BackPropagate: %v)", e)
+				}
 			}
 			return o
 		},
@@ -1578,6 +1587,17 @@ func checkC09Again(c C09Case, e *c09Entry) *Failure {
 			return f
 		}
 		if round == 0 {
+			// the call did not write to the caller's slices
+			for i := range dims {
+				if dims[i] != c.Dims[i] {
+					return failf("%s wrote to the caller's dims slice: %v became %v", c.Entry, c.Dims, dims)
+				}
+			}
+			for i := range idx {
+				if idx[i].From != c.Idx[i].From || idx[i].To != c.Idx[i].To {
+					return failf("%s wrote to the caller's index slice: %v became %v", c.Entry, c.Idx, idx)
+				}
+			}
 			firstOut, firstExp = o, exp
 		} else if firstOut.isTensor && firstOut.tensor != nil && firstOut.err == nil {
 			// the result of the first call is still the well-formed tensor it was, although the
